@@ -66,7 +66,14 @@ def run(repo, scratch, prop=None, thorough=False):
     env['VX_LEAF_SCRATCH'] = scratch
     if thorough:
         env['VX_LEAF_THOROUGH'] = '1'
-    cmd = ['cargo', 'test', '--offline', '--lib', '__vx_leafcheck', '--', '--test-threads=8', '--show-output']
+    # only the tests that serve `prop` (a module may hold tests for several properties)
+    wanted = []
+    for m in mods:
+        for t in m['tests']:
+            tp = re.findall(r'\bC\d\d\b', ' '.join(re.findall(r'^// props %s:([^\n(]*)' % t, m['text'], re.M))) or m['props']
+            if prop is None or prop in tp:
+                wanted.append(t)
+    cmd = ['cargo', 'test', '--offline', '--lib', '--'] + (sorted(set(wanted)) if prop is not None else ['__vx_leafcheck']) + ['--test-threads=8', '--show-output']
     res['cmd'] = 'cd <scratch copy of the repository>/kiki && ' + ' '.join(cmd)
     try:
         p = subprocess.run(cmd, cwd=os.path.join(work, 'kiki'), env=env, stdout=subprocess.PIPE, stderr=subprocess.STDOUT, timeout=1800)
@@ -91,6 +98,8 @@ def run(repo, scratch, prop=None, thorough=False):
         blocks[m_.group(1)] += m_.group(2)
     for m in mods:
         for t in m['tests']:
+            if prop is not None and t not in wanted:
+                continue
             st = status.get(t)
             blk = blocks.get(t, '')
             mc = re.search(r'LEAFCHECK leaf=(\S+) cases=(\d+)', blk)
